@@ -25,7 +25,7 @@ CHECKS = {
    text="2-4 simulated threads of one shared-memory instance family execute seeded mixes of all 63 atomic opcodes (two static offsets, mixed widths on hot words, operands with bits above the access width); every history is checked for linearizability against a byte-array register specification including the final memory. Runs on the native little-endian build (builtins, indivisible steps; two modules: shared memory defined / imported), on the forced big-endian build whose RMWs are mutex-based sequences that really interleave, and on the big-endian build with the header's portable byte-swap macros.",
    note="interleavings of indivisible atomic steps plus delayed stores (TSO store buffer) for any access whose memory order is weaker than seq_cst; load reordering / non-multi-copy-atomic hardware not modelled; histories <= 28 ops; search budget 1e6 states (over-budget = unchecked, never a violation)", ref="5/C16"),
  "C17": dict(engine="simrt", cat="exploration", tech="deterministic simulation: seeded schedules, spurious wake-ups, simulated clock/timeouts; refinement of wait/notify histories against a sequential futex specification (R1-R8) plus bounded liveness after a fault-free drain",
-   text="2-5 simulated threads run seeded wait32/wait64/notify/value-change operations (static offset 0 and non-zero, colliding hash buckets, timeouts -1/0/us/ms/s and values near 2^63 ns; waits whose allocations fail) under every lock/cond/load/store interleaving the scheduler draws, with spurious wake-ups and timer-vs-notify races; black-box rules on invoke/return events decide return codes, counts, no-lost-wake-up (incl. atomic check-and-enqueue), cross-address isolation and termination; ASan guards lifetimes.",
+   text="2-5 simulated threads run seeded wait32/wait64/notify/value-change operations (static offset 0 and non-zero, colliding hash buckets, timeouts -1/0/us/ms/s and values near 2^63 ns; waits whose allocations fail) under every lock/cond/load/store interleaving the scheduler draws, with spurious wake-ups and timer-vs-notify races; black-box rules on invoke/return events decide return codes, counts, no-lost-wake-up (incl. atomic check-and-enqueue), cross-address isolation and termination; ASan guards lifetimes. A quarter of the plans add two threads waiting on a second, independent shared memory that nobody writes or notifies (results fixed by the specification).",
    note="POSIX cond semantics as simulated (any waiter may be signalled, spurious wake-ups legal); realtime clock does not jump during waits", ref="5/C17"),
  "C18": dict(engine="simrt", cat="exploration", tech="deterministic simulation: seeded schedules with load/store-granular preemption; linearizability of grow/size histories against a bounded counter + vector-clock race detector on the memory descriptor",
    text="2-4 simulated threads grow/query/touch/fill/copy/wait on one shared memory, on the little-endian build and on the forced big-endian build (every atomic path goes through the memory mutex there); each history must be linearizable w.r.t. a bounded page counter (distinct old sizes, failed grows change nothing, final size = initial + successful deltas <= max), touched bytes of observed pages must hold, and a FastTrack-style happens-before detector fed by the instrumentation callbacks must see no unordered conflicting accesses to data/size/pages/maxPages.",
@@ -58,7 +58,7 @@ CHECKS.update({
    text="Histories of path_open/fd_write/fd_pwrite/fd_read/fd_pread/fd_seek/fd_tell/fd_filestat_get/fd_close through the exact C ABI generated code uses, in both ABI name spaces; after every operation errno, counts, 64-bit offsets, filestat fields, delivered bytes and the native file position must equal those of the corresponding POSIX call on the mirror, and the trees must be equal at the end. Under an injected fault the operation may report the fault or the short count, never other data or a moved position after positional I/O. Build variants: default, bundled strndup / no getentropy, and no <sys/uio.h> (the host's own readv/writev over read()/write(), with faults injected per segment and a prefix oracle). Concurrent phases: 2-3 simulated tasks are inside the host at the same time, each reading/writing/seeking its own file (interleaved at every instrumented access and libc call), each call judged against the same call on the mirror.",
    note="reference is the Linux kernel (pwritev/preadv/lseek/fstat); O_APPEND+pwrite, IOV_MAX and error precedence are excluded as POSIX-ambiguous", ref="5/C12"),
  "C13": dict(engine="simwasi", cat="exploration", tech="deterministic simulation: seeded descriptor-churn histories (open/close storms, double close, closed and never-issued numbers in every implemented call of both ABIs) with EMFILE injection, descriptor-table model + host-call log + ASan as oracles",
-   text="A model of the descriptor table (live set, pre-opens, stdio incl. closed standard streams; registration failures through a failing path copy or a failing growth of the table) decides: path_open never returns a live number, dead numbers give EBADF in all 23 implemented descriptor-taking calls and reach no host call, pre-opens report their registered path, descriptors 1/2/0 reach host fds 1/2/0; AddressSanitizer reports (double free, use after free of the descriptor path) are violations of this property.",
+   text="A model of the descriptor table (live set, pre-opens, stdio incl. closed standard streams; registration failures through a failing path copy or a failing growth of the table) decides: path_open never returns a live number, dead numbers give EBADF in all 23 implemented descriptor-taking calls and reach no host call, pre-opens report their registered path, descriptors 1/2/0 reach host fds 1/2/0; after every operation the host descriptor recorded for each live WASI descriptor must be open, of the kind that was opened, and recorded for no other live descriptor; AddressSanitizer reports (double free, use after free of the descriptor path) are violations of this property.",
    note="unimplemented (ENOSYS) calls are not swept; descriptor 2 is never closed (it carries the sanitizer output)", ref="5/C13"),
  "C14": dict(engine="simwasi", cat="exploration", tech="deterministic simulation: seeded path/readdir histories with DT_UNKNOWN buggify and opendir/readdir errors; tree-effect oracle against the mirror tree after every operation, host-path seam check, readdir listing protocol rules",
    text="Create/remove directory, unlink, rename, symlink, readlink, stat with relative/absolute/empty/over-long (around and beyond PATH_MAX) non-NUL-terminated guest paths: errno and the whole tree must equal the mirror after each call, rejected paths change nothing and reach no host call, ASan guards the PATH_MAX buffers. fd_readdir listings with buffers from 24 bytes must deliver every entry exactly once with correct d_next/d_ino/d_namlen/d_type, resume from any returned cookie and restart at cookie 0. Concurrent phases: 2-3 simulated tasks create/rename/link/remove their own names below one directory at the same time.",
